@@ -976,7 +976,8 @@ struct Enc {
         v_exte = ee;
         m_exte = true;
         std::vector<std::pair<int64_t, int64_t>> rel;
-        for (size_t i = 1; i < p.spine.size(); i++) rel.push_back({g(p.spine[i].x) - g(p.spine[0].x), g(p.spine[i].y) - g(p.spine[0].y)});
+        const std::vector<model::Pt> cl = model::centre_line(p);
+        for (size_t i = 1; i < cl.size(); i++) rel.push_back({g(cl[i].x) - g(cl[0].x), g(cl[i].y) - g(cl[0].y)});
         if (!(m_path && v_path == rel && omit())) {
             inf |= 0x20;
             point_list(f, rel, false);
@@ -985,7 +986,7 @@ struct Enc {
         m_path = true;
         bool wx, wy;
         int64_t vx, vy;
-        position(g(p.spine[0].x), g(p.spine[0].y), gx, gy, wx, wy, vx, vy);
+        position(g(cl[0].x), g(cl[0].y), gx, gy, wx, wy, vx, vy);
         if (wx) {
             inf |= 0x10;
             f.sint(vx);
@@ -1131,6 +1132,37 @@ struct Enc {
         std::vector<std::vector<Chunk>> cell_chunks;
         for (auto& cell : m.cells) {
             std::vector<Chunk> out;
+            if (c.layernames && rng.chance(0.3)) {
+                // LAYERNAME: name, layer interval, datatype interval (types 0..4).  A name record stands between
+                // cells (it ends the cell before it), so it goes in front of this cell's CELL record; PROPERTY
+                // records that follow it belong to the layer name, which is not part of the layout
+                Chunk ln;
+                ln.kind = 1;
+                W lw;
+                lw.byte(rng.chance(0.5) ? 11 : 12);
+                lw.str("METAL" + std::to_string(rng.below(9)));
+                for (int k = 0; k < 2; k++) {
+                    uint64_t t = rng.below(5);
+                    lw.uint(t);
+                    if (t == 4) lw.uint(rng.below(50));
+                    if (t > 0) lw.uint(50 + rng.below(50));
+                }
+                if (rng.chance(0.5)) {
+                    model::MProp lp;
+                    lp.name = "LAYER_NOTE";
+                    model::MVal v;
+                    v.kind = 0;
+                    v.u = rng.below(100);
+                    lp.vals = {v};
+                    m_pname = false;  // self-contained, and nothing after it relies on it
+                    m_pvals = false;
+                    props(lw, {lp});
+                    m_pname = false;
+                    m_pvals = false;
+                }
+                ln.b = lw.b;
+                out.push_back(ln);
+            }
             Chunk cr;
             cr.kind = 0;
             W w;
@@ -1154,22 +1186,6 @@ struct Enc {
             }
             cr.b = w.b;
             out.push_back(cr);
-            if (c.layernames && rng.chance(0.3)) {
-                // LAYERNAME: name, layer interval, datatype interval (types 0..4)
-                Chunk ln;
-                ln.kind = 1;
-                W lw;
-                lw.byte(rng.chance(0.5) ? 11 : 12);
-                lw.str("METAL" + std::to_string(rng.below(9)));
-                for (int k = 0; k < 2; k++) {
-                    uint64_t t = rng.below(5);
-                    lw.uint(t);
-                    if (t == 4) lw.uint(rng.below(50));
-                    if (t > 0) lw.uint(50 + rng.below(50));
-                }
-                ln.b = lw.b;
-                out.push_back(ln);
-            }
             // elements in a seeded order
             std::vector<std::pair<int, size_t>> items;
             for (size_t i = 0; i < cell.polys.size(); i++) items.push_back({0, i});
